@@ -130,8 +130,15 @@ ConflictPairs ==
         IN StageCells[s] \cap cells # {}}
 FamilyOf == [w \in AdminOps \cup Workers |->
                {s \in {Stages[i] : i \in 1..Len(Stages)} : <<w, s>> \in ConflictPairs}]
+\* The persist step that ends every admin operation (config.write) is a reader of
+\* every cell (ConfigWriteReads).  Admin operations exclude each other (the control
+\* lock), so the only writers that can overlap with it are the background workers:
+\* each worker whose cells it reads is one more scenario family ("Persist": the
+\* persist step of an admin operation against the worker's own write-back step).
+PersistPairs == {w \in Workers : WorkerWrites[w] \cap ConfigWriteReads # {}}
 EmitFamilies ==
     PrintT(<<"@@V", ToJson([families |-> [w \in AdminOps \cup Workers |-> FamilyOf[w]],
+                            persist |-> PersistPairs,
                             pairs |-> Cardinality(ConflictPairs)])>>)
 ASSUME EmitFamilies
 \* Overlaps recorded dynamically are always static conflict pairs.
